@@ -51,6 +51,10 @@ def configs(tier):
     for role in ("server", "client"):
         out.append({"role": role, "failByDrop": False, "echo": False, "cht": 1, "sdt": 1,
                     "start": "open", "stream": True})
+    # options declared per connection (protocol class), the factory's differ
+    for role in ("server", "client"):
+        out.append({"role": role, "failByDrop": False, "echo": False, "cht": 1, "sdt": 1,
+                    "start": "open", "via": "class"})
     # server whose onConnect answers asynchronously: the peer may be gone before the answer
     out.append({"role": "server", "failByDrop": False, "echo": False, "cht": 1, "sdt": 1,
                 "start": "connecting", "dconn": True})
@@ -130,7 +134,15 @@ class Sys:
                 self.connect_future = txaio.create_future()
                 return self.connect_future
             hooks = {"connect": connect}
-        self.ep = ws.Endpoint(role, opts, hooks=hooks)
+        if cfg.get("via") == "class":
+            # the connection's own settings (protocol class attributes) differ from the factory's:
+            # the factory has the timers disabled and the opposite failByDrop - the connection's count
+            fopts = {"failByDrop": not cfg["failByDrop"], "closeHandshakeTimeout": 0, "openHandshakeTimeout": 5}
+            if role == "client":
+                fopts["serverConnectionDropTimeout"] = 0
+            self.ep = ws.Endpoint(role, fopts, hooks=hooks, proto_class_attrs=opts)
+        else:
+            self.ep = ws.Endpoint(role, opts, hooks=hooks)
         self.conn = self.ep.conn
         self.proto = self.ep.proto
         self.t = self.ep.t
@@ -630,6 +642,8 @@ def job(a):
 
     def report(clause, detail, hist, **extra):
         cid = "%s/%s/%s" % (cfg["role"], "drop" if cfg["failByDrop"] else "close", cfg["start"])
+        if cfg.get("via"):
+            cid += "/options-on-protocol-" + cfg["via"]
         sig = "C05|%s|%s|%s" % (clause, cfg["role"], hist[-1] if hist else "init")
         persig[sig] = persig.get(sig, 0) + 1
         if persig[sig] <= 1:
